@@ -152,7 +152,7 @@ def document_clauses(vc, raw, expect, docs):
     vc.prove("reserialises_to_the_identical_octets", len(out) == len(raw) and vc.eq(out, raw))
 
 
-@contract("MBXML.from_bytes", "okdmr.dmrlib.motorola.mbxml:MBXML.from_bytes", ["C15"], stubs=["MBXML.write_uintvar"])
+@contract("MBXML.from_bytes", "okdmr.dmrlib.motorola.mbxml:MBXML.from_bytes", ["C15", "C19"], stubs=["MBXML.write_uintvar"])
 def parse_serialise(vc, docs):
     raw, expect = compose(vc, docs)
     got = MBXML.from_bytes(raw)
@@ -226,7 +226,7 @@ parse_serialise.max_paths = 3000
 
 
 # ---------------------------------------------------------------------------------------------- assembled documents
-@contract("MBXMLDocument.get_token", "okdmr.dmrlib.motorola.mbxml:MBXMLDocument.get_token", ["C15"], stubs=["MBXML.write_uintvar"])
+@contract("MBXMLDocument.get_token", "okdmr.dmrlib.motorola.mbxml:MBXMLDocument.get_token", ["C15", "C19"], stubs=["MBXML.write_uintvar"])
 def assembled(vc, doc, tokens, cdt=None):
     """a document assembled through the token lookup API (element by id, attributes by id or name, symbolic values)
     serialises to octets that parse back into the same token ids and values"""
